@@ -222,7 +222,7 @@ func runC15(tier string, seed uint64, idx int) core.Result {
 	rng := core.CaseSeed(seed, "C15.index", idx)
 	h, err := newSeqHarness("C15", r, rng, true)
 	if err != nil {
-		r.Inconclusive(err.Error())
+		r.Violate("C15/node-cannot-start", "a fresh RF=1 node cannot become leader: "+scrub(err.Error()), nil)
 		return r.Done()
 	}
 	defer h.Close()
